@@ -70,6 +70,9 @@ def gen_doc(rng):
     params = rng.sample(PARAMS, rng.randint(0, 3))
     with_return = rng.random() < 0.6 or not params
     sec = section(style, params, with_return)
+    glued = rng.random() < 0.2
+    if glued and header and header[-1] == "":
+        header.pop()        # the last paragraph of the header runs straight into the section: no blank line between them
     footer = rng.choice(FOOT) if rng.random() < 0.4 else []
     level = rng.choice([0, 0, 1, 1, 2])
     lines = header + sec + ([""] + footer if footer else [])
@@ -83,7 +86,7 @@ def gen_doc(rng):
     doc = lead + body + ending
     return {"doc": doc, "style": style, "level": level, "header_lines": [l for l in header if l],
             "footer_lines": [l.strip() for l in footer if l.strip()], "params": [p[0] for p in params],
-            "has_footer": bool(footer), "footer_kind": footer[0] if footer else None, "ending": ending, "tabbed_blanks": tabbed}
+            "has_footer": bool(footer), "footer_kind": footer[0] if footer else None, "ending": ending, "tabbed_blanks": tabbed, "glued": glued}
 
 
 def in_order(needles, lines):
